@@ -198,6 +198,46 @@ func checkCell7(c *child.Ctx, k cellCase, cell *msm7sig.Cell, lambda float64, cj
 			c.Count("phase_ranges_compared", 1)
 		}
 	}
+	// the brief (non-debug) display has one column per quantity: each column says
+	// "invalid" or "no wavelength" for exactly the quantity that is, and the value otherwise
+	if !strings.Contains(text, "{") {
+		cols := strings.Split(text, ", ")
+		if len(cols) >= 4 {
+			first := strings.Fields(cols[0])
+			colRange := ""
+			if len(first) >= 3 {
+				colRange = first[2]
+			}
+			colPhase, colDoppler, colRate := strings.TrimSpace(cols[1]), strings.TrimSpace(cols[2]), strings.TrimSpace(cols[3])
+			wantWord := func(invalid bool, needsLambda bool) string {
+				switch {
+				case invalid:
+					return "invalid"
+				case needsLambda && lambda == 0:
+					return "no wavelength"
+				}
+				return ""
+			}
+			for _, col := range []struct {
+				name, got, want string
+			}{{"range", colRange, wantWord(invalidRough, false)}, {"phase range", colPhase, wantWord(invalidRough, true)},
+				{"Doppler", colDoppler, wantWord(sat.Rate == -8192, true)}, {"range rate", colRate, wantWord(sat.Rate == -8192, true)}} {
+				isWord := col.got == "invalid" || col.got == "no wavelength"
+				if col.want != "" && col.got != col.want || col.want == "" && isWord {
+					c.Violate("range-display", fmt.Sprintf("MSM7 brief display %q: the %s column reads %q; it should read %q (empty = a number)", text, col.name, col.got, col.want), cj)
+					break
+				}
+			}
+			if !invalidRough && lambda != 0 && phaseMs.Sign() >= 0 {
+				want := new(big.Float).SetPrec(c08Prec).Mul(phaseMs, bigCms)
+				want.Quo(want, bf(lambda))
+				if !textHas3(colPhase, want) {
+					c.Violate("range-display", fmt.Sprintf("MSM7 brief display %q does not show the phase range %s", text, want.Text('f', 3)), cj)
+				}
+			}
+			c.Count("brief_display_columns_checked", 1)
+		}
+	}
 	// range rate: rough + fine/10000 m/s; Doppler = -rate/lambda
 	if sat.Rate == -8192 {
 		if cell.PhaseRangeRate() != 0 || cell.GetAggregatePhaseRangeRate() != 0 {
